@@ -212,6 +212,21 @@ def spec_classes(spec):
     return cl
 
 
+def add_worse_copy(spec, src, dst, gap):
+    """Pure post-processing: action `dst` becomes a copy of action `src` whose reward is lower by `gap` in EVERY state, so
+    that choosing dst instead of src everywhere costs gap / (1 - gamma). With dst < src the worse copy has the LOWER index
+    (a tolerance-based or first-match tie-break then prefers it)."""
+    import copy
+
+    out = copy.deepcopy(spec)
+    for s in range(spec["nS"]):
+        out["next"][s][dst] = list(spec["next"][s][src])
+        out["prob"][s][dst] = list(spec["prob"][s][src])
+        out["reward"][s][dst] = [float(r - gap) for r in spec["reward"][s][src]]
+    out["flags"] = list(spec.get("flags", [])) + ["worse-copy-" + ("lower-index" if dst < src else "higher-index")]
+    return out
+
+
 def add_near_optimal_action(spec, gamma, deltas):
     """Post-process a spec (pure function, numpy only): for every state s with deltas[s] is not None, shift the
     rewards of the LAST action so that its optimal Q-value is exactly V*(s) - deltas[s] while its transitions stay
